@@ -146,6 +146,7 @@ type c18State struct {
 
 type c18Run struct {
 	Events   []c18Event
+	Startup  map[string]int
 	Exit     int    // exit code, -1 if signalled
 	Signal   string // "" or e.g. SIGKILL
 	Target   c18State
@@ -232,8 +233,10 @@ func c18FdPath(arg string) string {
 
 // parseLog translates the strace log into the model's call list (only calls
 // that touch dir) and notes, per call, which occurrence of its syscall it was.
-func c18ParseLog(log string, dir, target string) (events []c18Event, exit int, signal string, mainPid string) {
+func c18ParseLog(log string, dir, target string) (events []c18Event, exit int, signal string, startup map[string]int) {
 	exit = -2
+	mainPid := ""
+	startup = map[string]int{} // calls (by syscall name) that do not touch the target directory: runtime start-up, on the main thread
 	pending := map[string]string{}
 	counts := map[string]int{}
 	entryNo := map[string]int{} // pid -> occurrence number of its pending syscall
@@ -387,6 +390,9 @@ func c18ParseLog(log string, dir, target string) (events []c18Event, exit int, s
 		}
 		in := func(p string) bool { return p != "" && filepath.Dir(p) == dir }
 		if !in(abs) && !in(abs2) {
+			if len(events) == 0 {
+				startup[name]++
+			}
 			continue
 		}
 		ev.Path = filepath.Base(abs)
@@ -536,9 +542,7 @@ func (env *c18Env) run(s c18Scenario) (*c18Run, error) {
 		return nil, fmt.Errorf("no strace log: %v (%v) %s", err, runErr, stderr.String())
 	}
 	r := &c18Run{Stderr: stderr.String()}
-	var mainPid string
-	r.Events, r.Exit, r.Signal, mainPid = c18ParseLog(string(logb), dir, s.File.Name)
-	_ = mainPid
+	r.Events, r.Exit, r.Signal, r.Startup = c18ParseLog(string(logb), dir, s.File.Name)
 	if r.Exit == -2 {
 		// fall back to the wait status of strace (which mirrors the tracee)
 		var ee *exec.ExitError
@@ -990,9 +994,12 @@ func c18FaultsOf(base *c18Run) []c18Fault {
 	rel := map[string]int{}
 	for i, e := range base.Events {
 		rel[e.Syscall]++
-		fs = append(fs, c18Fault{Kind: "kill", Index: i, Syscall: e.Syscall, When: e.When, WhenAlt: rel[e.Syscall]})
+		// all calls on the main thread (the usual case): start-up calls of the runtime count too;
+		// all calls on another thread: only the calls on the target directory count
+		onMain := rel[e.Syscall] + base.Startup[e.Syscall]
+		fs = append(fs, c18Fault{Kind: "kill", Index: i, Syscall: e.Syscall, When: onMain, WhenAlt: rel[e.Syscall]})
 		for _, en := range []string{"ENOSPC", "EIO", "EACCES"} {
-			fs = append(fs, c18Fault{Kind: "err", Index: i, Errno: en, Syscall: e.Syscall, When: e.When, WhenAlt: rel[e.Syscall]})
+			fs = append(fs, c18Fault{Kind: "err", Index: i, Errno: en, Syscall: e.Syscall, When: onMain, WhenAlt: rel[e.Syscall]})
 		}
 	}
 	return fs
@@ -1097,7 +1104,7 @@ func runC18(cfg Config, r *Result) {
 				var err error
 				ok := false
 				learned := 0
-				for attempt := 0; attempt < 10 && !ok; attempt++ {
+				for attempt := 0; attempt < 12 && !ok; attempt++ {
 					sc := j.s
 					if learned > 0 {
 						sc.Fault.When = learned // the per-thread index seen in the run that was missed
